@@ -224,5 +224,9 @@ func (iter *UnsavedFastIterator) Close() error {
 
 // Error implements store.Iterator
 func (iter *UnsavedFastIterator) Error() error {
+	if iter.err == nil && iter.fastIterator != nil {
+		// a failure of the persisted-index iterator ends the merged iteration early
+		return iter.fastIterator.Error()
+	}
 	return iter.err
 }
